@@ -409,6 +409,13 @@ impl<'a, 'tcx> Cx<'a, 'tcx> {
                     };
                     fields.push(("v", J::I(val)));
                 }
+                ConstValue::Scalar(mir::interpret::Scalar::Ptr(ptr, _)) => {
+                    // references to statics: `&STATIC` is a pointer constant into the static's allocation
+                    let alloc_id = ptr.provenance.alloc_id();
+                    if let Some(mir::interpret::GlobalAlloc::Static(did)) = tcx.try_get_global_alloc(alloc_id) {
+                        fields.push(("static", J::s(path_of(tcx, did))));
+                    }
+                }
                 ConstValue::Slice { .. } => {
                     if let ty::Ref(_, inner, _) = ty.kind() {
                         if inner.is_str() {
